@@ -63,10 +63,12 @@ def check(run):
         nblocks = sum(1 for sp in specs if any(c in ("srxlpma" if odh & 2 else "srxlpm") for c in sp))
         ref = refexp.RefExporter(fp, bps)
         sessions.append((line, ref, [])); kinds.append([nblocks])
+    for s_ in refexp.alignment_sweep(rng, range(0, 2101, 2), rotate=True):
+        sessions.append(s_); kinds.append(None)
     res = E.run_sessions(run, sessions, need_rd=False)
     seen = set()
     for s, r, k in zip(sessions, res, kinds):
-        run.case(s[0][:300], True)
+        run.case(s[0][:300], True, key=s[0])
         run.count("direct-block" if k is not None else "api-session")
         E.record_failures(run, s, judge_valid(s, r, k), seen)
 
